@@ -53,7 +53,12 @@ func main() {
 		os.Exit(2)
 	}
 	r := core.NewRun(id, tier, c.Budget(tier))
-	r.StartStallGuard(c.Budget(tier) + 15*time.Minute)
+	// no evaluation anywhere for this long = stuck (the slowest single case of any check is a few seconds)
+	stall := 5 * time.Minute
+	if tier == "thorough" {
+		stall = 15 * time.Minute
+	}
+	r.StartStallGuard(stall)
 	if c.Level != "" {
 		r.Level = c.Level
 	}
